@@ -519,6 +519,7 @@ def gen_m2(rnd, tier):
         cases.append({'lines': lines, 'tags': {'family': fam, 'zone': zn, 'transition_window': bool(want_tr)}})
     cases += gen_month_family(random.Random(rnd.random()), tier)
     cases += gen_range_lists(random.Random(rnd.random()), tier)
+    cases += gen_rolling(random.Random(rnd.random()), tier)
     cases += gen_transition_families(random.Random(rnd.random()), tier)
     cases += gen_parse_families(random.Random(rnd.random()), tier)
     cases += directed_m2()
@@ -650,6 +651,168 @@ def gen_range_lists(rnd, tier):
                         out.append({'lines': lines, 'tags': {'family': 'm2-range-list', 'zone': zn, 'transition_window': bool(want_tr),
                                                             'list_config': cname, 'list_mode': mode, 'list_variant': variant,
                                                             'list_len': len(cfg), 'list_nested_ending_earlier': nested}})
+    return out
+
+
+# ----------------------------------------------------------------------------- M2: rolling updates (Start + timer rounds)
+
+def roll_probes(zn, lo, hi, all_trs):
+    pts = set((lo - 1, lo, lo + 1))
+    bounds = spec_bounds(zn, lo - 7200, hi, all_trs)
+    for u in bounds:
+        pts.update((u - 1, u, u + 1))
+    for u1, u2 in zip(bounds, bounds[1:]):
+        pts.add((u1 + u2) // 2)
+    t = lo - lo % 7200
+    while t <= hi:
+        pts.add(t)
+        t += 7200
+    base, tab, _, _ = zone_table(zn)
+    for ti, _ in tab:
+        if lo <= ti <= hi:
+            pts.update((ti - 1, ti, ti + 1))
+    return sorted(pts)
+
+
+def gen_rolling(rnd, tier):
+    """what the daemon does over two to three days: every period is started (UpdateRegion(now, now + 24 h, true)) and then
+    goes through the REAL TimePeriod::UpdateTimerHandler() round after round (5-minute rounds around every local
+    midnight, longer steps and an occasional stall in between).  The referencing period is created - and therefore
+    updated in every round - before, between or after the periods it includes / excludes; those have ranges running
+    past midnight (their valid_end runs ahead, so they compute each new day later than the others)."""
+    out = []
+    n = {'quick': 40, 'thorough': 240, 'search': 100}.get(tier, 40)
+    for i in range(n):
+        zn = ZONES[i % 4]
+        trs_dst = zn != 'UTC'
+        if trs_dst and rnd.random() < 0.4:
+            at = rnd.choice(anchors(zn))
+            day0 = (at + off_at(zn, at - 1)) // 86400 - rnd.choice((1, 2))        # the rounds walk over the transition
+            crosses = True
+        else:
+            day0 = T0 // 86400 + rnd.randint(3, 700)
+            crosses = False
+        n0 = mk_local(zn, day0 * 86400) + rnd.choice((10 * 3600 + 17 * 60, 23 * 3600 + 50 * 60, 5 * 60, 12 * 3600, rnd.randrange(0, 86400)))
+        span = rnd.choice((48, 60, 72)) * 3600
+
+        def tod(lo, hi):
+            return safe_tod(rnd, zn, lo, hi)
+
+        def wrap_list():
+            tb = tod(18 * 3600, 86399)
+            te = tod(0, 6 * 3600) if not trs_dst else rnd.choice((tod(0, 3599), tod(10800, 6 * 3600)))
+            l = [(tb, te)]
+            if rnd.random() < 0.7:
+                mb = tod(te + 1800 if te >= 10800 else 10800, 11 * 3600)
+                l.append((mb, tod(mb + 600, 12 * 3600)))
+            if rnd.random() < 0.3:                      # nested in the wrapping range, before midnight
+                ib = tod(tb, 86399)
+                l.append((ib, tod(ib, 86400)))
+            rnd.shuffle(l)
+            return [x for x in l if x[0] != x[1]]
+
+        def day_list():
+            k = rnd.random()
+            if k < 0.25:
+                return [(0, 86400)]
+            if k < 0.5:
+                b = tod(6 * 3600, 10 * 3600)
+                return [(b, tod(15 * 3600, 20 * 3600))]
+            if k < 0.75:
+                b1 = tod(7 * 3600, 9 * 3600)
+                e1 = tod(11 * 3600, 12 * 3600)
+                b2 = tod(e1, 14 * 3600)
+                return [(b1, e1), (b2, tod(16 * 3600, 86400))]
+            _, cfg = rnd.choice(LIST_CONFIGS)
+            pts = list_points(rnd, zn, 'day')
+            l = [(pts[x], pts[y]) for x, y in cfg]
+            rnd.shuffle(l)
+            return l
+
+        def inner_list(outer):
+            """ranges inside the first range of the referencing period (lunch), sharing a boundary now and then"""
+            b, e = outer[0] if outer[0][1] > outer[0][0] else (outer[0][0], 86400)
+            if e - b < 7200:
+                return [(tod(11 * 3600, 12 * 3600), tod(12 * 3600 + 60, 14 * 3600))]
+            k = rnd.random()
+            ib = b if k < 0.2 else tod(b + 600, (b + e) // 2)
+            ie = e if 0.2 <= k < 0.4 else tod(ib + 600, e - 300)
+            return [(ib, ie)]
+
+        shape = rnd.choice(('work-lunch', 'always-wrap', 'always-wrap', 'include-wrap', 'both', 'random'))
+        own = {'work-lunch': day_list, 'always-wrap': lambda: [(0, 86400)], 'include-wrap': day_list, 'both': day_list, 'random': day_list}[shape]()
+        refs = {}
+        if shape == 'work-lunch':
+            refs['b'] = ('exc', inner_list(own))
+        elif shape == 'always-wrap':
+            refs['b'] = ('exc', wrap_list())
+        elif shape == 'include-wrap':
+            refs['b'] = ('inc', wrap_list())
+        elif shape == 'both':
+            refs['b'] = (rnd.choice(('inc', 'exc')), wrap_list())
+            refs['c'] = ('exc' if refs['b'][0] == 'inc' else 'inc', rnd.choice((inner_list(own), wrap_list(), day_list())))
+        else:
+            refs['b'] = (rnd.choice(('inc', 'exc')), rnd.choice((wrap_list(), day_list(), inner_list(own))))
+            if rnd.random() < 0.5:
+                refs['c'] = (rnd.choice(('inc', 'exc')), rnd.choice((wrap_list(), day_list())))
+        names = ['a'] + sorted(refs)
+        order = list(names)
+        rnd.shuffle(order)
+        pos = order.index('a')
+        where = 'referencing-first' if pos == 0 else ('referencing-last' if pos == len(order) - 1 else 'referencing-between')
+        inc = [k for k in sorted(refs) if refs[k][0] == 'inc']
+        exc = [k for k in sorted(refs) if refs[k][0] == 'exc']
+        # keys: one date range over the whole stretch, or every weekday by name (the lists of the referenced periods then
+        # differ between odd and even weekdays)
+        D0 = datetime.date(1970, 1, 1) + datetime.timedelta(days=day0 - 2)
+        D1 = D0 + datetime.timedelta(days=9)
+        keymode = rnd.choice(('date-range', 'weekdays'))
+        all_trs = list(own)
+        body = []
+        for nm in order:
+            if nm == 'a':
+                body.append('tp_new name=a prefer=%d inc=%s exc=%s' % (rnd.randint(0, 1), ','.join(inc) or '-', ','.join(exc) or '-'))
+            else:
+                body.append('tp_new name=%s' % nm)
+        for nm in names:
+            lst = own if nm == 'a' else refs[nm][1]
+            if keymode == 'date-range':
+                s_, a_ = daydef(('d', D0.year, D0.month, D0.day), ('d', D1.year, D1.month, D1.day), 1)
+                body.append(range_line(nm, s_, a_, lst, rnd))
+                all_trs += lst
+            else:
+                alt = lst if nm == 'a' else (wrap_list() if rnd.random() < 0.5 else lst)
+                for wd in range(7):
+                    s_, a_ = daydef(('w', wd, 0, -1))
+                    l = lst if wd % 2 == 0 else alt
+                    body.append(range_line(nm, s_, a_, l, rnd))
+                    all_trs += l
+        lines = ['now %d' % n0, tz_line(zn, n0 - 5 * 86400, n0 + span + 7 * 86400),
+                 'tp_pts ' + ','.join(str(p) for p in roll_probes(zn, n0 - 3600, n0 + span + 2 * 86400 + 7200, all_trs))] + body
+        for nm in (order if rnd.random() < 0.7 else reversed(order)):
+            lines.append('tp_start name=%s' % nm)
+        t = n0
+        rounds = 0
+        stalled = rnd.random() < 0.7
+        while t < n0 + span:
+            l = (t + off_at(zn, t)) % 86400
+            near_midnight = l < 1500 or l > 86400 - 1500
+            if near_midnight:
+                step = 300
+            elif not stalled and rnd.random() < 0.02:
+                step = rnd.choice((5, 7, 9)) * 3600 + rnd.randrange(0, 3600)          # the daemon was stalled
+                stalled = True
+            else:
+                step = rnd.choice((3600, 3600, 1800, 7200, 300, 900, 2700 + rnd.randrange(0, 600)))
+            t += step
+            lines.append('now %d' % t)
+            lines.append('tp_timer')
+            rounds += 1
+            if rnd.random() < 0.1:
+                lines.append('tp_now name=a')
+        out.append({'lines': lines, 'tags': {'family': 'm2-rolling', 'zone': zn, 'roll_order': where, 'roll_shape': shape, 'roll_keys': keymode,
+                                            'roll_rounds': rounds, 'roll_hours': span // 3600, 'roll_crosses_transition': crosses,
+                                            'transition_window': crosses}})
     return out
 
 
@@ -1002,6 +1165,8 @@ def classify(case, detail, impl_lines):
         return 'calendar-hypotheses'
     if 'op=tp_parse' in detail:
         return 'parse'
+    if 'violates-C08 rolling' in detail:
+        return 'rolling'
     if 'calendar' in detail:
         if detail.endswith('class=1'):
             return 'wrap-first-day'
@@ -1067,7 +1232,7 @@ def canon(lines):
 
 
 def keep_line(l):
-    return l.startswith(('tp_new', 'tp_pts', 'tp_tz'))
+    return l.startswith(('tp_new', 'tp_pts', 'tp_tz', 'tp_range', 'tp_start'))
 
 
 def extra_stats(cases, impl):
